@@ -154,8 +154,9 @@ RECURSIVE BHash(_, _)
 BHash(ls, i) == IF i > Len(ls) THEN 0 ELSE (IF ls[i].id = "1" THEN 1 ELSE IF ls[i].id = "2" THEN 2 ELSE 3) * (3 * i + 1) + BHash(ls, i + 1)
 OpNum(op) == CASE op = "require" -> 1 [] op = "amount" -> 2 [] op = "count" -> 3 [] op = "allof" -> 4 [] op = "anyof" -> 5
 B1Chunks == {<<"B1", vi, a, 0, 0>> : vi \in DOMAIN BVariants, a \in AssignNums}
-\* never thinned: every basic requirement over lists of length <= 2 (empty, singleton, pair; count-of 0 .. 4)
-B1Cases(k) == {MkB("B1", k[2], AssignOf(k[3]), Atom(b)) : b \in {x \in Basics1 : Len(x.leaves) <= 2 \/ Keep(BHash(x.leaves, 1) + x.n * 5 + OpNum(x.op) + k[3] + k[2], ThinB1)}}
+\* never thinned: every basic requirement over lists of length <= 2 (empty, singleton, pair; count-of 0 .. 4) and
+\* count-of 0 over every list
+B1Cases(k) == {MkB("B1", k[2], AssignOf(k[3]), Atom(b)) : b \in {x \in Basics1 : Len(x.leaves) <= 2 \/ (x.op = "count" /\ x.n = 0) \/ Keep(BHash(x.leaves, 1) + x.n * 5 + OpNum(x.op) + k[3] + k[2], ThinB1)}}
 
 \* composite trees by number of requirement leaves
 T1 == {B(Require(L3[i])) : i \in 1..3}
